@@ -94,6 +94,16 @@ def run(prop, components, tier, lean_targets=(), level_text="", assumptions=(), 
             seen_sig = {}
             for label, cr in failing:
                 disagreements_checked += 1
+                # a failing case that matches a listed finding as it stands needs no minimisation
+                if cr.oracle:
+                    cutop = min(o for o, _ in cr.oracle)
+                    tcr = vlib.CaseResult(cr.cid, cr.ops[:cutop])
+                    tcr.impl, tcr.model = cr.impl[:cutop], cr.model[:cutop]
+                    tcr.oracle = [(o, m) for o, m in cr.oracle if o == cutop]
+                    fid0 = comp.finding_id(tcr)
+                    if fid0 and fid0 in known:
+                        known_hit[fid0] = known[fid0]
+                        continue
                 sig0 = (bool(cr.oracle), (cr.ops[min(cr.first_diff if cr.first_diff is not None else (cr.oracle[0][0] - 1), len(cr.ops) - 1)].split()[0]))
                 if seen_sig.get(sig0, 0) >= 3:
                     continue
